@@ -17,8 +17,8 @@ CHECKS = {
    note="trusted: vinstr/vrt/vnet; default schedule only"),
  "C14": dict(level="exploration", design="4/C14",
    technique="bounded-exhaustive enumeration of configurations and plugin capability lists; first message of each real connection parsed by an independent strict OPEN parser",
-   text="Product of boundary local AS / hold time / router id values with all capability lists up to depth 2 (quick) / 3 (thorough) over a code x length alphabet, totals around the 255-octet limits and unrepresentable lists, both connection directions; the OPEN the real FSM writes is parsed strictly (all four nested lengths) and compared field by field with the configuration. Also the OPEN of a second connection (after another negotiated hold time, with the plugin handing out the same list again or editing its values in place) and router ids in IPv4-mapped form. The judged OPEN is also that of a second connection after a first one that ended in OpenSent or OpenConfirm, by the close of the remote or by its NOTIFICATION (2,4) (then after the hold-down).",
-   note="trusted: vinstr/vrt/vnet, wire.ParseOpenStrict; default schedule only"),
+   text="Product of boundary local AS / hold time / router id values with all capability lists up to depth 2 (quick) / 3 (thorough) over a code x length alphabet, totals around the 255-octet limits and unrepresentable lists, both connection directions; the OPEN the real FSM writes is parsed strictly (all four nested lengths) and compared field by field with the configuration. Also the OPEN of a second connection (after another negotiated hold time, with the plugin handing out the same list again or editing its values in place) and router ids in IPv4-mapped form. The judged OPEN is also that of a second connection after a first one that ended in OpenSent or OpenConfirm, by the close of the remote or by its NOTIFICATION (2,4) (then after the hold-down). Scenario two-peers-open: two peers with different AS, hold time and capabilities connected to at the same instant, every schedule within 2 delays run to its end without the happens-before cache, each first message judged against its own peer.",
+   note="trusted: vinstr/vrt/vnet, wire.ParseOpenStrict; default schedule except scenario two-peers-open (delay bound 2); seeded change c14-O (pooled OPEN buffer reused before it is written) is NOT detected, see DESIGN 10.2"),
  "C01": dict(level="model_checking", design="4/C01",
    technique="stateless model checking of the implementation: delay-bounded exhaustive schedule exploration with happens-before caching, callback-history automaton on every execution",
    text="The real corebgp (mechanically rewritten onto the vrt scheduler) is executed over the product of connection scripts (8 failure/success scripts on the first inbound and the first outbound connection), identifier dominance, active/passive mode, API tails (Close, DeletePeer, DeletePeer+AddPeer) and trigger points; for each scenario every schedule within the delay bound is enumerated and a monitor automaton checks OnEstablished/OnClose alternation and non-overlap, handler placement, GetCapabilities/OnOpenMessage per connection and session markers per connection. Complete inside the bound and the scenario set, silent outside. Also: concurrent second API calls swept over the steps of DeletePeer/Close, several peers, a duplicate OPEN on one connection, twins of the scenarios under the legacy timer-channel semantics, with hold time 0 and with one plugin callback taking virtual time.",
@@ -29,7 +29,7 @@ CHECKS = {
    note="trusted: vinstr/vrt/vnet; dominance judged only where the remote's script removes TCP-level ambiguity"),
  "C10": dict(level="model_checking", design="4/C10",
    technique="stateless model checking of the implementation: API call injected at every step index x delay-bounded schedule exploration, vector-clock data-race detection on every execution",
-   text="Close/DeletePeer is issued at every step index of the default execution (and at the first quiescent point) of 14 connection scripts covering every FSM state in both directions, collision, damping, active writers, reconnect and a by-stander peer; around each trigger all schedules within the delay bound are enumerated on the real code. Oracles: bounded virtual latency, Serve return value, every library connection closed, Cease before EOF on healthy connections, callback monitor, goroutine-leak rule at a post-return quiescent cut, and a FastTrack-style race detector fed by instrumented field/array/map accesses on every execution. Also Close with a concurrent AddPeer or an arriving connection, bursts of inbound connections, hold-time-0 peers, a peer that stopped reading on a bounded-window network (known finding D16), API calls landing inside a slow plugin callback. Two shutdown calls at once (DeletePeer || Close, Close || Close at a swept offset, also with a 300 ms callback in the way) are judged at the return of Close by the callback monitor; goroutines that a serving server without peers keeps are learnt from the tree under test.",
+   text="Close/DeletePeer is issued at every step index of the default execution (and at the first quiescent point) of 14 connection scripts covering every FSM state in both directions, collision, damping, active writers, reconnect and a by-stander peer; around each trigger all schedules within the delay bound are enumerated on the real code. Oracles: bounded virtual latency, Serve return value, every library connection closed, Cease before EOF on healthy connections, callback monitor, goroutine-leak rule at a post-return quiescent cut, and a FastTrack-style race detector fed by instrumented field/array/map accesses on every execution. Also Close with a concurrent AddPeer or an arriving connection, bursts of inbound connections, hold-time-0 peers, a plugin whose capabilities cannot be encoded (every dial accepted, no OPEN ever sent, redial after each idle hold time: every one of those connections closed at return), a peer that stopped reading on a bounded-window network (known finding D16), API calls landing inside a slow plugin callback. Two shutdown calls at once (DeletePeer || Close, Close || Close at a swept offset, also with a 300 ms callback in the way) are judged at the return of Close by the callback monitor; goroutines that a serving server without peers keeps are learnt from the tree under test.",
    note="trusted: vinstr/vrt/vnet; race detector scope A5; bound 1 (quick) / 2 (thorough)"),
  "C15": dict(level="exploration", design="4/C15",
    technique="bounded-exhaustive input enumeration of codec values and byte strings vs independent reference encoder / strict parser (white-box through a generated export shim)",
@@ -53,7 +53,7 @@ CHECKS = {
    note="trusted: vinstr/vrt/vnet; Write atomicity assumption A3"),
  "C06": dict(level="exploration", design="4/C06",
    technique="bounded-exhaustive enumeration of (local hold, remote hold, traffic pattern, write pattern, timer semantics) in virtual time on the real FSM, plus delay-bounded schedule exploration around expiry; thorough tier: 48 cases are also run in real time on the Go runtime over loopback TCP and the timelines compared with the virtual ones (conformance of the virtual clock)",
-   text="The 8x8 hold-time grid x 7 remote traffic patterns (incl. KEEPALIVE 1 ns before and exactly at expiry) x 3 local write patterns x both Go timer-channel semantics, each run for 3 hold times of virtual time (10x65535 s for hold 0) with time-stamped wire observations: negotiated value, no early expiry, expiry with (4,0)+EOF after silence, keepalive/UPDATE cadence <= hold/3 + 1 s, hold 0 never expires and sends no periodic KEEPALIVEs. Also second sessions after a session with another hold time, nil handlers, a slow handler around expiry, and one WriteUpdate at every step of the FSM's keepalive path. Scenario refused-write: WriteUpdate with bodies over 4077 octets once a second; while the session is up the connection is never silent for longer than hold/3 + 1 s (raw writes).",
+   text="The 8x8 hold-time grid x 7 remote traffic patterns (incl. KEEPALIVE 1 ns before and exactly at expiry) x 3 local write patterns x both Go timer-channel semantics, each run for 3 hold times of virtual time (10x65535 s for hold 0) with time-stamped wire observations: negotiated value, no early expiry, expiry with (4,0)+EOF after silence, keepalive/UPDATE cadence <= hold/3 + 1 s, hold 0 never expires and sends no periodic KEEPALIVEs. Also second sessions after a session with another hold time, nil handlers, a slow handler around expiry, and one WriteUpdate at every step of the FSM's keepalive path. Traffic pair-late: a message 0.9 s / 0.5 s / 1 ns after the previous one, then silence of H-1ns. Scenario refused-write: WriteUpdate with bodies over 4077 octets once a second; while the session is up the connection is never silent for longer than hold/3 + 1 s (raw writes).",
    note="trusted: vinstr/vrt virtual clock; zero-time computation A4"),
  "C16": dict(level="exploration", design="4/C16",
    technique="bounded-exhaustive input enumeration of UpdateDecoder.Decode vs an independent reference partitioner",
